@@ -6,6 +6,7 @@ from ..report import AnalysisError
 from ..srcmodel import unparse, norm, walk_no_nested, calls_in
 from .common import is_method_call, get_kw, recv_of, cfg_of
 from . import evalrules as er
+from . import tr
 
 PROP = 'C09'
 DECIDED = [
@@ -69,6 +70,9 @@ def classify(loop):
         stores = [s for s in ast.walk(loop) if isinstance(s, ast.Assign) and any(isinstance(t, ast.Subscript) and norm(t.value) == coll for t in s.targets)]
         if incr and len(body) == len(incr) and not grows and not stores:
             return 'bounded-counter', 'counter %s walks a finite collection %s that the loop does not modify' % (i, coll)
+        conts = [s for s in ast.walk(loop) if isinstance(s, (ast.Continue,))]
+        if incr and not grows and not stores and not conts:
+            return 'bounded-counter', 'counter %s increases in every iteration over a finite collection %s that the loop only shrinks' % (i, coll)
     # shrinking worklist: while True: if K not in D: break ; ... D.pop(K)
     if isinstance(test, ast.Constant) and test.value is True and body and isinstance(body[0], ast.If) and any(isinstance(b, ast.Break) for b in body[0].body):
         t = body[0].test
@@ -78,6 +82,10 @@ def classify(loop):
                 return 'shrinking-worklist', 'every iteration pops an element of %s' % coll
     # reference chasing: loop variable tested with isinstance / is not None and reassigned in the body from a lookup
     names = {n.id for n in ast.walk(test) if isinstance(n, ast.Name)}
+    if isinstance(test, ast.Constant) and test.value is True:
+        for st in body:
+            if isinstance(st, ast.If) and any(isinstance(b, ast.Break) for b in st.body):
+                names |= {n.id for n in ast.walk(st.test) if isinstance(n, ast.Name)}
     reassigned = [s for s in ast.walk(loop) if isinstance(s, ast.Assign) and any(isinstance(t, ast.Name) and t.id in names for t in s.targets)]
     if reassigned:
         return 'reference-chasing', 'loop variable %s is reassigned from %s' % (sorted(names & {t.id for s in reassigned for t in s.targets if isinstance(t, ast.Name)}), norm(reassigned[0].value)[:60])
@@ -114,6 +122,10 @@ def r1(repo, run):
                 run.ok('C09.R1', where, desc, '%s: %s' % (kind, why))
             elif fi.qualname in LOOP_TABLE and kind == 'reference-chasing' and not (fi.cls is not None and repo.is_subclass(fi.cls.name, 'ConfigNode')):
                 run.ok('C09.R1', where, desc, 'table: ' + LOOP_TABLE[fi.qualname])
+            elif kind == 'reference-chasing' and fi.cls is not None and fi.cls.name == 'XRefNode':
+                n_chase += 1
+                if n_chase == 1:
+                    xref_guard(repo, run)
             elif kind == 'reference-chasing':
                 n_chase += 1
                 ok, how = cycle_guard(loop)
@@ -127,44 +139,81 @@ def r1(repo, run):
         raise AnalysisError('C09.R1: the reference-chasing loop of XRefNode.on_evaluate_impl was not found')
 
 
-def r2r3(repo, run):
+XNI = {'get_node', 'evaluate_node', 'get_str_path'}
+
+
+def _xref_paths(repo):
     fi = repo.func('XRefNode.ayns.on_evaluate_impl')
-    rets = [s for s in walk_no_nested(fi.node) if isinstance(s, ast.Return)]
-    if len(rets) != 1:
-        raise AnalysisError('XRefNode.on_evaluate_impl: single return not recognised')
-    v = rets[0].value
-    if isinstance(v, ast.Call) and is_method_call(v, recv=fi.params()[2], member='evaluate_node'):
-        run.ok('C09.R2', (fi.file, rets[0].lineno, fi.qualname), norm(rets[0]), 'the referenced node\'s own (memoised) evaluation result is returned unmodified')
+    return fi, tr.paths_of(repo, fi, no_inline=XNI, follow_exceptions=True, mark_carried=True)
+
+
+def _lookups(p):
+    return [e for e in p.events if e.kind == 'call' and e.attr == 'get_node' and e.in_loop and e.args]
+
+
+def xref_guard(repo, run):
+    """reference chasing in XRefNode.on_evaluate_impl (helpers inlined): in the iteration that dereferences the current
+    node CUR, membership of a value derived from CUR alone in a collection S has been tested false, S receives that value in
+    the same iteration, and the true outcome of the test raises"""
+    fi, paths = _xref_paths(repo)
+    n = 0
+    bad = None
+    for p in paths:
+        for e in _lookups(p):
+            n += 1
+            CUR = e.args[0].text
+            keys = ('id(%s)' % CUR, CUR, 'str(%s)' % CUR)
+            guards = [(t[:t.index(' in ')], t[t.index(' in ') + 4:]) for t, pol in e.facts if not pol and ' in ' in t and t[:t.index(' in ')] in keys]
+            okp = False
+            for x, coll in guards:
+                grows = any(g.kind == 'call' and g.attr in ('add', 'append') and g.recv is not None and g.recv.text == coll and g.args and g.args[0].text == x and g.in_loop for g in p.events)
+                raises = any(q.status == 'raise' and ('%s in %s' % (x, coll), True) in q.facts for q in paths)
+                if grows and raises:
+                    okp = (x, coll)
+            if not okp:
+                bad = (e, 'the lookup of %s is not preceded by `if <key of current> in <visited>: raise` with <visited> receiving that key in the same iteration%s' % (CUR, (' (tests found: %s)' % guards) if guards else ''))
+    if not n:
+        raise AnalysisError('C09.R1: the reference-chasing loop of XRefNode.on_evaluate_impl was not found')
+    if bad:
+        run.violation('C09.R1', tr.where(fi, bad[0]), 'reference chasing: ' + bad[0].callee, 'reference-chasing loop without a cycle guard: %s. A reference cycle (also one that the start node is not part of) never terminates' % bad[1])
     else:
-        run.violation('C09.R2', fi, norm(rets[0]), 'a reference does not evaluate to the very object its target evaluates to (result wrapped / copied / not obtained through ctx.evaluate_node)', node=rets[0])
-    loops = [s for s in walk_no_nested(fi.node) if isinstance(s, ast.While)]
-    if len(loops) != 1:
+        run.ok('C09.R1', fi, 'reference chasing: ctx.get_node(<current>)', 'cycle guard: key of the current node tested against a visited collection that receives it every iteration; a revisit raises')
+
+
+def r2r3(repo, run):
+    fi, paths = _xref_paths(repo)
+    n = 0
+    v2, v3 = set(), set()
+    for p in paths:
+        looks = _lookups(p)
+        if p.status == 'return':
+            evs = [e for e in p.events if tr.is_call(e, attr='evaluate_node') and e.recv is not None and e.recv.text == fi.params()[2]]
+            final = looks[-1].result.text if looks else 'self'
+            if not evs or p.ret is None or p.ret.text != evs[-1].result.text or not evs[-1].args or evs[-1].args[0].text not in (final, 'carried(%s)' % final):
+                v2.add(('bad', 'a reference does not evaluate to the very object its target evaluates to (result wrapped / copied / not obtained through ctx.evaluate_node): returns %s' % (p.ret.text[:60] if p.ret is not None else None)))
+            else:
+                v2.add(('ok', 'the referenced node\'s own (memoised) evaluation result is returned unmodified'))
+        for e in looks:
+            n += 1
+            inc = e.kw.get('incomplete')
+            if inc is not None and inc.const is not False:
+                v3.add(('bad', 'the reference lookup tolerates missing paths (incomplete=%s): a dangling reference ends the chain silently' % inc.text))
+            else:
+                v3.add(('ok', 'strict lookup (incomplete left False): a missing path raises KeyError'))
+        if looks and any(t.startswith('exception:') and pol for t, pol in p.facts) and p.status != 'raise':
+            v3.add(('bad', 'a failed lookup is swallowed instead of being reported [%s]' % tr.describe(p, 4)))
+    if not n:
         raise AnalysisError('XRefNode.on_evaluate_impl: chasing loop not found')
-    looks = [c for c in calls_in(loops[0]) if is_method_call(c, member='get_node')]
-    if len(looks) != 1:
-        raise AnalysisError('XRefNode: lookup in the loop not recognised')
-    inc = get_kw(looks[0], 'incomplete')
-    if inc is not None and not (isinstance(inc, ast.Constant) and inc.value is False):
-        run.violation('C09.R3', fi, unparse(looks[0]), 'the reference lookup tolerates missing paths (incomplete=%s): a dangling reference ends the chain silently' % norm(inc), node=looks[0])
-    else:
-        gn = repo.func('ComposedNode.ayns.get_node')
-        d = dict(zip([a.arg for a in gn.node.args.kwonlyargs], gn.node.args.kw_defaults))
-        dv = d.get('incomplete')
-        ectx = repo.func('EvalContext.get_node')
-        passes = any(is_method_call(c, member='get_node', ayns=True) and any(k.arg is None for k in c.keywords) for c in calls_in(ectx.node))
-        if not (isinstance(dv, ast.Constant) and dv.value is False) or not passes:
-            run.violation('C09.R3', gn, 'get_node(incomplete=%s)' % (norm(dv) if dv is not None else '?'), 'lookups are not strict by default / EvalContext.get_node does not forward to the strict lookup')
-        else:
-            run.ok('C09.R3', (fi.file, looks[0].lineno, fi.qualname), unparse(looks[0]), 'strict lookup (incomplete defaults to False): missing path raises KeyError')
-    tr = [s for s in ast.walk(loops[0]) if isinstance(s, ast.Try) and any(c is looks[0] for c in calls_in(s))]
-    okh = tr and any(h.type is not None and 'KeyError' in norm(h.type) and any(isinstance(b, ast.Raise) for b in h.body) for h in tr[0].handlers)
-    swallow = tr and any((h.type is None or 'KeyError' in norm(h.type) or norm(h.type) == 'Exception') and not any(isinstance(b, ast.Raise) for b in ast.walk(ast.Module(body=h.body, type_ignores=[]))) for h in tr[0].handlers)
-    if swallow:
-        run.violation('C09.R3', fi, 'except around %s' % unparse(looks[0]), 'a failed lookup is swallowed instead of being reported', node=tr[0])
-    elif okh:
-        run.ok('C09.R3', (fi.file, tr[0].lineno, fi.qualname), 'except KeyError: raise ValueError(...)', 'dangling reference is reported (wrapped as EvalError by on_evaluate)')
-    else:
-        run.ok('C09.R3', (fi.file, looks[0].lineno, fi.qualname), 'KeyError of the strict lookup propagates', 'reported as EvalError by the rethrow decorator')
+    gn = repo.func('ComposedNode.ayns.get_node')
+    d = dict(zip([a.arg for a in gn.node.args.kwonlyargs], gn.node.args.kw_defaults))
+    dv = d.get('incomplete')
+    ectx = repo.func('EvalContext.get_node')
+    passes = any(is_method_call(c, member='get_node', ayns=True) and any(k.arg is None for k in c.keywords) for c in calls_in(ectx.node))
+    if not (isinstance(dv, ast.Constant) and dv.value is False) or not passes:
+        run.violation('C09.R3', gn, 'get_node(incomplete=%s)' % (norm(dv) if dv is not None else '?'), 'lookups are not strict by default / EvalContext.get_node does not forward to the strict lookup')
+    for r_, vs in (('C09.R2', v2), ('C09.R3', v3)):
+        for v in sorted(vs):
+            (run.ok if v[0] == 'ok' else run.violation)(r_, fi, 'XRefNode evaluation', v[1])
 
 
 def r4(repo, run):
